@@ -79,6 +79,7 @@ type Ctx struct {
 	noAutoExpand bool
 	autoCache    map[*ast.FuncDecl]*canonOpts
 	autoBusy     map[*ast.FuncDecl]bool
+	mergeCache   map[interface{}]*canonOpts
 	declSpans    []*ast.FuncDecl
 }
 
